@@ -125,9 +125,26 @@ where
     match case.mode.as_str() {
         "honest" => {
             arena::set_ctx("verify");
+            let log0 = merlin::vlog::len();
             let mut vt = Transcript::new(b"ipp-verif");
             let res = proof.verify(n, &mut vt, gf.iter(), hf.iter(), &P, &Q, &Gs, &Hs);
             arena::set_ctx("post");
+            // every round challenge is squeezed after that round's L and R (full encodings) were absorbed
+            {
+                let ev = merlin::vlog::since(log0);
+                let ops: Vec<&merlin::vlog::Event> = ev.iter().filter(|e| (e.op == "append" || e.op == "challenge") && !(e.op == "append" && e.label == b"dom-sep" && e.data == b"ipp-verif")).collect();
+                let enc = |p: &SymA<C>| -> Vec<u8> { let mut b = vec![]; ark_serialize::CanonicalSerialize::serialize_uncompressed(&p.p, &mut b).unwrap(); b };
+                let mut ok = ops.len() == 2 + 3 * case.k;
+                if ok {
+                    ok &= ops[0].op == "append" && ops[1].op == "append" && ops[1].data == (n as u64).to_le_bytes().to_vec();
+                    for j in 0..case.k {
+                        ok &= ops[2 + 3 * j].op == "append" && ops[2 + 3 * j].data == enc(&L[j]);
+                        ok &= ops[3 + 3 * j].op == "append" && ops[3 + 3 * j].data == enc(&R[j]);
+                        ok &= ops[4 + 3 * j].op == "challenge" && ops[4 + 3 * j].data.len() == 32;
+                    }
+                }
+                job.check("verifier transcript: separator, length, then per round L_j, R_j (full encodings) before the round challenge", ok, format!("{} operations for {} rounds", ops.len(), case.k));
+            }
             job.concrete = serde_json::json!({"verify_ok": res.is_ok(), "expected": true});
             job.check("concrete verdict: honest proof accepted", res.is_ok(), format!("{:?}", res));
             let evs = events_in("verify");
@@ -223,6 +240,8 @@ pub fn c10_cases(thorough: bool) -> Vec<IppCase> {
     v.push(IppCase { name: "honest_k2_unit_g".into(), k: 2, g_factors: "unit".into(), h_factors: "sym".into(), a_pat: "s".into(), b_pat: "s".into(), mode: "honest".into() });
     v.push(IppCase { name: "honest_k2_sparse".into(), k: 2, g_factors: "sym".into(), h_factors: "sym".into(), a_pat: "s0s1".into(), b_pat: "1s0s".into(), mode: "honest".into() });
     v.push(IppCase { name: "honest_k3_ones_zeros".into(), k: 3, g_factors: "sym".into(), h_factors: "unit".into(), a_pat: "s1s0s".into(), b_pat: "0s1".into(), mode: "honest".into() });
+    v.push(IppCase { name: "honest_k1_a_all_zero".into(), k: 1, g_factors: "sym".into(), h_factors: "sym".into(), a_pat: "0".into(), b_pat: "s".into(), mode: "honest".into() });
+    v.push(IppCase { name: "honest_k2_b_all_zero".into(), k: 2, g_factors: "sym".into(), h_factors: "unit".into(), a_pat: "s".into(), b_pat: "0".into(), mode: "honest".into() });
     v.push(IppCase { name: "degenerate_k2_L_identity".into(), k: 2, g_factors: "sym".into(), h_factors: "sym".into(), a_pat: "00ss".into(), b_pat: "ss00".into(), mode: "degenerate".into() });
     v.push(IppCase { name: "degenerate_k1_R_identity".into(), k: 1, g_factors: "sym".into(), h_factors: "sym".into(), a_pat: "s0".into(), b_pat: "0s".into(), mode: "degenerate".into() });
     if thorough {
@@ -241,6 +260,8 @@ pub fn c13_literal_sets() -> Vec<[&'static str; 5]> {
         ["18446744073709551619", "1", "340282366920938463463374607431768211460", "2", "18446744073709551629"],
         ["3062541302288446171336392163549299867653", "3", "37662610412320084584716148373850690813986345936164176789511", "0", "2"],
         ["0", "0", "1", "-1", "-1"],
+        ["-5", "7", "-1", "3", "2"],
+        ["-18446744073709551615", "9", "-4294967296", "-3", "-2"],
         ["25108406941546723055343157692830665664483208754150976258059", "-2", "37662610412320084585056430740771629277394380311374816346125", "5", "3"],
     ]
 }
@@ -327,6 +348,17 @@ where
     let absorbed = evs.iter().any(|e| e.op == "append" && e.label == b"V" && e.data == vbytes);
     job.check("Prover::commit absorbs the full encoding of the returned commitment under label V", absorbed, String::new());
     job.check("Prover::commit equals PedersenGens::commit on the shadow curve", V.p == c1.p, String::new());
+    // a second commitment on the same prover with the SAME blinding and a different value
+    {
+        let mut pt2 = Transcript::new(b"c13");
+        let mut prover = Prover::new(&pc, &mut pt2);
+        let v_other = v1 + SymF::from(3u64);
+        let (_Va, _) = prover.commit(v1, r1);
+        let (Vb, _) = prover.commit(v_other, r1);
+        items.extend(lin_eq_items("second Prover::commit with a repeated blinding", &Vb.lin(), &mk(v_other, r1)));
+        let refb: C::Group = pc.B.p * v_other.v + pc.B_blinding.p * r1.v;
+        job.check("a second commitment with the same blinding and another value is its own commitment (shadow curve)", SymP::<C>::from(Vb).p == refb, String::new());
+    }
     job.groups.push(identity_group("pedersen_laws", "I", "commit(v,r) = v*B + r*Bblind coefficient-wise for all v, r and any pair of bases; additive homomorphism; scaling; Prover::commit is the same function", items));
     arena::with(|a| {
         if !a.opaque.is_empty() {
